@@ -13,6 +13,8 @@
      [C05] every SNAP: lower_invb of the recovered state, held blocks still allocated and freeable
            (spec_put_enabled on abs), frames that were free and not touched by an in-flight call are
            free, recovered stats = accounting of abs
+     [C18] every access of the compiled code (S line) names a word with in-range indices (bitfield < nbf, row < ROWS,
+           entry < ntab * TREE_HUGE) and an aligned 8/16/32/64-bit lane inside its row (AccessBoundsDef.v)
      [C21] every SOLO run ends within the bound and not in a wait-panic
    Per run at most one CORR message (the first divergence; the machine is then dropped for the run).
    usage: step.exe step <transcript|-> [keys-file]
@@ -316,6 +318,15 @@ let do_step tid line fields =
   sched_step tid;
   match fields with
   | [ kind; what; h; row; off; width; found; nw; ok ] -> (
+      (* C18: the word the compiled code accessed has in-range indices and an aligned lane inside its row *)
+      (let fr = n_of_int r.nframes in
+       let okb =
+         match what with
+         | "row" -> row_idx_okb r.g fr (n_of_dec h) (n_of_dec row) (n_of_dec off) (n_of_dec width)
+         | "ent" -> ent_idx_okb r.g fr (n_of_dec h) (n_of_dec off) (n_of_dec width) && row = "0"
+         | _ -> false
+       in
+       if not okb then oracle "[C18]" (Printf.sprintf "step %d: access outside the index / lane bounds of the lower buffer: %s" r.nsteps line));
       if tid < Array.length r.firststep && r.firststep.(tid) then begin
         r.firststep.(tid) <- false;
         (match r.cur.(tid) with
@@ -630,10 +641,10 @@ let suite_step file keys =
   | None -> ());
   let hist h prefix = String.concat " " (List.sort compare (Hashtbl.fold (fun k v acc -> Printf.sprintf "%s%s=%d" prefix k v :: acc) h [])) in
   Printf.printf
-    "SUMMARY suite=step evaluations=%d distinct=%d runs=%d maxsteps=%d failed_cas=%d pre=%d snaps=%d solos=%d solomax=%d panics=%d known_panics=%d xlines=%d corr=%d oracle=%d corr_runs=%d c01=%d c03=%d c05=%d c21=%d stale_split_leaks=%d %s %s\n"
+    "SUMMARY suite=step evaluations=%d distinct=%d runs=%d maxsteps=%d failed_cas=%d pre=%d snaps=%d solos=%d solomax=%d panics=%d known_panics=%d xlines=%d corr=%d oracle=%d corr_runs=%d c01=%d c03=%d c05=%d c18=%d c21=%d stale_split_leaks=%d %s %s\n"
     !evals (Hashtbl.length distinct) !runs !maxsteps !failed_cas !pre_calls !snaps !solos !solomax !panics !known_panics !xlines
     (get kind_counts "CORR") (get kind_counts "ORACLE") !corr_runs (get tag_counts "ORACLE[C01]") (get tag_counts "ORACLE[C03]")
-    (get tag_counts "ORACLE[C05]") (get tag_counts "ORACLE[C21]") (get tag_counts "NOTEstale-split-leak") (hist mode_hist "mode:") (hist scn_hist "scn:")
+    (get tag_counts "ORACLE[C05]") (get tag_counts "ORACLE[C18]") (get tag_counts "ORACLE[C21]") (get tag_counts "NOTEstale-split-leak") (hist mode_hist "mode:") (hist scn_hist "scn:")
 
 let () =
   match Array.to_list Sys.argv with
